@@ -319,6 +319,11 @@ var resultOpts = canonOpts{
 	},
 	MultisetTypes: map[string]bool{
 		"*hcl.Diagnostic": true,
+		// not among the results whose order C03 fixes (collected from a map of attributes)
+		"decoder.WriteOnlyAttribute": true,
+	},
+	QueryPathFields: map[string]bool{
+		"ReferenceTarget.OriginRange": true,
 	},
 }
 
